@@ -111,7 +111,7 @@ def keep(pid, v, needs, caught_by, notes=""):
         shutil.copy(extra, dst)
     n = f"{SEED}/out/{pid}/{v}/NOTES.md"
     if os.path.exists(n): shutil.copy(n, dst + "/NOTES.md")
-    meta = {"property": pid, "variant": v, "needs_to_manifest": needs, "caught_by": caught_by, "notes": notes,
+    meta = {"property": pid[:3], "seed_id": pid, "variant": v, "needs_to_manifest": needs, "caught_by": caught_by, "notes": notes,
             "confirmed": "patch applies to a scratch worktree of /repo HEAD, workspace builds, suite = baseline (99 pass, tests::client::test_url_parser fails as on the unchanged tree), demonstration exits non-zero with the patch and 0 without (tools/seed.py confirm)",
             "ran": [f"tools/seed.py confirm {pid} {v}", f"tools/seed.py detect {pid} {v} ..."]}
     json.dump(meta, open(dst + "/meta.json", "w"), indent=1)
@@ -122,9 +122,10 @@ def sweep():
     out = {}
     for d in sorted(glob.glob("/verif/seeded/*/meta.json")):
         m = json.load(open(d))
-        key = f"{m['property']}-{m['variant']}"
+        sid = m.get("seed_id", m["property"])
+        key = f"{sid}-{m['variant']}"
         checks = m.get("caught_by") or [m["property"]]
-        r = detect(m["property"], m["variant"], checks)
+        r = detect(sid, m["variant"], checks)
         out[key] = r
     json.dump(out, open("/verif/seeded/SWEEP.json", "w"), indent=1)
     missed = [k for k, r in out.items() if not r or not any(x["exit"] == 1 for x in r.values())]
